@@ -912,29 +912,63 @@ var raceFrameRe = regexp.MustCompile(`(?m)^  ([A-Za-z0-9_./\-]+(?:\([^)]*\))?[A-
 // harness bug, not a violation.
 func raceSignature(blk string) (string, bool) {
 	secs := strings.Split(blk, "\n\n")
-	var tops []string
-	sut := 0
+	type acc struct {
+		top    string // innermost attributable frame
+		sut    bool
+		caller string // for an I/O shim frame: the innermost attributable frame above it
+		calSUT bool
+	}
+	var accs []acc
 	for _, s := range secs {
-		if len(tops) == 2 {
+		if len(accs) == 2 {
 			break
 		}
 		if !(strings.Contains(s, " at 0x") && (strings.Contains(s, "rite at") || strings.Contains(s, "ead at"))) {
 			continue
 		}
-		top := "?"
+		a := acc{top: "?"}
+		shim := false
 		for _, m := range raceFrameRe.FindAllStringSubmatch(s, -1) {
 			fn := m[1]
-			if strings.Contains(fn, "buildbarn/bb-storage") {
-				top = fn
-				sut++
+			isSUT := strings.Contains(fn, "buildbarn/bb-storage")
+			isHarness := strings.HasPrefix(fn, "verif/") || strings.HasPrefix(fn, "main.")
+			if !isSUT && !isHarness {
+				continue
+			}
+			if a.top == "?" {
+				a.top, a.sut = fn, isSUT
+				// The simulated device copies from / into memory supplied by
+				// its caller: an access inside these two functions is made on
+				// the caller's behalf.
+				if isHarness && (strings.HasSuffix(fn, "sim.(*Device).ReadAt") || strings.HasSuffix(fn, "sim.(*Device).WriteAt")) {
+					shim = true
+					continue
+				}
 				break
 			}
-			if strings.HasPrefix(fn, "verif/") || strings.HasPrefix(fn, "main.") {
-				top = fn
+			if shim {
+				a.caller, a.calSUT = fn, isSUT
 				break
 			}
 		}
-		tops = append(tops, strings.TrimPrefix(top, "github.com/buildbarn/bb-storage/"))
+		accs = append(accs, a)
+	}
+	// A shim access is attributed to its caller only when the other access is
+	// in bb-storage itself (two shim accesses race on the device's own memory:
+	// a harness matter).
+	for i := range accs {
+		o := accs[len(accs)-1-i]
+		if !accs[i].sut && accs[i].caller != "" && o.sut && len(accs) == 2 {
+			accs[i].top, accs[i].sut = accs[i].caller+"(via simulated device I/O)", accs[i].calSUT
+		}
+	}
+	var tops []string
+	sut := 0
+	for _, a := range accs {
+		if a.sut {
+			sut++
+		}
+		tops = append(tops, strings.TrimPrefix(a.top, "github.com/buildbarn/bb-storage/"))
 	}
 	sort.Strings(tops)
 	return "race:" + strings.Join(tops, "<>"), sut == 2
